@@ -24,7 +24,7 @@ import (
 // blocks and must reproduce the reference trace. Multi-restart variants restart at several heights.
 func init() {
 	Register("oracle14", runOracle14)
-	RegisterPlan(Plan{Prop: "C14", Engine: "oracle14", Quick: 16, Thorough: 400, Level: "fault_enumeration", MinCases: 8,
+	RegisterPlan(Plan{Prop: "C14", Engine: "oracle14", Quick: 40, Thorough: 600, Level: "fault_enumeration", MinCases: 8,
 		Rule: "histories of the oracle workload (40-60 blocks; see C12/C13) recorded as per-block transaction bytes; for EVERY height h of each history a replica replays 1..h, restarts (fresh ExocoreApp over the same DB + reset of the oracle's package-level state), continues, and its per-block trace (app hash, per-tx code/gas/data, validator updates, oracle store digest, normalised in-memory digest H1) is compared with the uninterrupted run; every 4th history additionally restarts at 2-4 heights in one replica. Distinct = ⟨round phase at the restart point (mid-window / window end / idle / right after finalisation / right after a validator-set change), #feeders with an open round⟩."})
 }
 
